@@ -378,9 +378,16 @@ func chooseRequests(r *rec.Rand, s *scen.Scenario, subjects []string, probe func
 			out = append(out, l[i])
 		}
 	}
-	take(many, 3)
-	take(one, 1)
-	take(rest, 2)
+	if s.Shape == "c05-wide-intersection" {
+		// every intersection of this shape holds exactly one object per user: ask about many of them
+		take(many, 2)
+		take(one, 5)
+		take(rest, 1)
+	} else {
+		take(many, 3)
+		take(one, 1)
+		take(rest, 2)
+	}
 	for i := range out {
 		out[i].Chunk = rec.Pick(r, []int{1, 2, 100})
 		out[i].Procs = rec.Pick(r, []int{1, 3})
